@@ -56,7 +56,13 @@ def _t(x) -> str:
 class Piece:
     def __init__(self, stmt, lhs_rows, lhs_col, rhs_base, lo, hi, loop=None, loop_lo=None, loop_hi=None):
         self.stmt, self.lhs_rows, self.lhs_col, self.rhs_base = stmt, lhs_rows, lhs_col, rhs_base
+        self.col_shift = None
         self.lo, self.hi, self.loop, self.loop_lo, self.loop_hi = lo, hi, loop, loop_lo, loop_hi
+
+    def col_lin(self, L):
+        """column index as a linear form in the (re-based) loop variable"""
+        c = L(self.lhs_col)
+        return c.subs({"i": Lin.sym("i") + self.col_shift}) if self.col_shift is not None else c
 
 
 def _outputs(fi: FunctionInfo) -> Tuple[str, str, str]:
@@ -85,8 +91,19 @@ def _frame(repo, fi: FunctionInfo, same_rows: bool, x_given: bool):
     for ln, l in loops.items():
         sym[f"{l.target.id}__L{ln}"] = Lin.sym("i")
 
+    class _ShapeOfAlloc(ast.NodeTransformer):
+        """numpy.empty((R, C), ..).shape[k] -> R or C (the table was just allocated with these sizes)"""
+
+        def visit_Subscript(self, n):
+            self.generic_visit(n)
+            if isinstance(n.value, ast.Attribute) and n.value.attr == "shape" and isinstance(n.slice, ast.Constant) and isinstance(n.slice.value, int):
+                v = n.value.value
+                if isinstance(v, ast.Call) and _t(v.func) in ("numpy.empty", "numpy.zeros", "numpy.full", "numpy.ones") and v.args and isinstance(v.args[0], ast.Tuple) and n.slice.value < len(v.args[0].elts):
+                    return v.args[0].elts[n.slice.value]
+            return n
+
     def L(e):
-        return lin(e, sym)
+        return lin(_ShapeOfAlloc().visit(clone_ast(e)), sym)
 
     pieces: Dict[str, Piece] = {}
     for key, val in p.named_stores.items():
@@ -117,7 +134,21 @@ def _frame(repo, fi: FunctionInfo, same_rows: bool, x_given: bool):
                 lhi = L(PathSub(p.env, a[-1] if len(a) <= 2 else a[1]))
         role = "targets" if k.value.id == oy else ("lags" if base == py_ else ("exog" if base == f"{pX}__set" else None))
         if role:
-            pieces[role] = Piece(p.origin.get(key), rows, col, base, lo, hi, loop, llo, lhi)
+            # a loop over range(A, B) is read from its canonical start (delay1 for the targets, 0 for
+            # the lags): i = i' + (A - start), so that `for k in range(B - A)` and `for i in range(A, B)`
+            # describe the same columns and slices
+            start = D1 if role == "targets" else Lin(0)
+            if loop is not None and llo is not None and lhi is not None and role in ("targets", "lags") and llo != start:
+                shift = llo - start
+                sh = {"i": Lin.sym("i") + shift}
+                lo, hi = lo.subs(sh), hi.subs(sh)
+                piece_col_shift = shift
+                llo, lhi = start, lhi - shift
+            else:
+                piece_col_shift = None
+            pc = Piece(p.origin.get(key), rows, col, base, lo, hi, loop, llo, lhi)
+            pc.col_shift = piece_col_shift
+            pieces[role] = pc
     w = p.ret.elts[2] if isinstance(p.ret, ast.Tuple) and len(p.ret.elts) == 3 else None
     wst = p.origin.get(ow)
     if isinstance(w, ast.Subscript) and isinstance(w.slice, ast.Slice):
@@ -192,9 +223,9 @@ def check_a(ck, repo):
     ck.verdict(_sub(Lg.hi - Lg.lo - nrow, **one).is_zero(), "C20.a", fi, Lg.stmt if Lg.stmt is not None else "lag slice", f"lag slice has nrow elements (length {_sub(Lg.hi - Lg.lo, **one)!r})", f"lag slice y[{Lg.lo!r}:{Lg.hi!r}] has length {_sub(Lg.hi - Lg.lo, **one)!r}, not nrow = {nrow!r}")
     ck.verdict(Lg.lo == I, "C20.a", fi, f"lag column i starts at y[{Lg.lo!r}]", "row r, lag column i reads y[r + i]: `past` consecutive values, newest y[r + past - 1]", f"lag column i starts at {Lg.lo!r} instead of i: lags are not the `past` consecutive values ending at r + past - 1")
     try:
-        col = L(Lg.lhs_col)
+        col = Lg.col_lin(L)
         ck.verdict(col == I + NCOL, "C20.a", fi, f"lag column index {col!r}", "lag i is stored in column ncol + i (after the exogenous columns)", f"lag i is stored in column {col!r}")
-        col0 = L0(P0["lags"].lhs_col) if "lags" in P0 else None
+        col0 = P0["lags"].col_lin(L0) if "lags" in P0 else None
         ck.verdict(col0 == I, "C20.a", fi, f"lag column index without exogenous features {col0!r}", "without exogenous features lag i is column i", f"without exogenous features lag i is stored in column {col0!r}")
     except LinErr:
         ck.unknown("C20.a", fi, "lag column index", "cannot read the lag column index")
@@ -208,7 +239,7 @@ def check_a(ck, repo):
     last = _sub(T.hi, i=D2 - Lin(1))
     ck.verdict((last - N).is_zero(), "C20.a", fi, f"largest index read: {last!r} - 1", "the last target of the last row is y[n - 1] (no read past the series, none dropped)", f"the last target slice ends at {last!r}, not n")
     try:
-        colt = L(T.lhs_col)
+        colt = T.col_lin(L)
         ck.verdict(colt == I - D1, "C20.a", fi, f"target column index {colt!r}", "step i is stored in column i - delay1", f"target for step i is stored in column {colt!r}")
     except LinErr:
         ck.unknown("C20.a", fi, "target column index", "cannot read the target column index")
@@ -258,7 +289,7 @@ def check_b(ck, repo, plainP):
             if isinstance(a.lhs_col, ast.Slice) or isinstance(b.lhs_col, ast.Slice):
                 okc = _t(a.lhs_col) == _t(b.lhs_col)
             else:
-                okc = L(a.lhs_col) == L(b.lhs_col)
+                okc = a.col_lin(L) == b.col_lin(L)
             ck.verdict(okc, "C20.b", fi, f"{role}: column {_t(a.lhs_col)}", "same columns as the plain variant", f"{role} go to other columns than in the plain variant")
         except LinErr:
             pass
